@@ -344,6 +344,7 @@ def p_C02(ctx):
                 "mutable view at every window position (and nested, thorough); identity of the cell is checked by id AND address; "
                 "distinct by (root kind, shape, window stack, accessor, coordinate)")
     ctx.assumptions = ACC_ASSUME
+    addr_check(ctx)       # Layer B: W-bit address arithmetic of the accessors, both build flavours
     if ctx.quick:
         r = acc_tlc(ctx, "access", ["read", "write"], [0, 11, 13, 31, 23, 32], kinds=("owned", "slice_v", "slice_m"), depth=1)
         combos = [("dev", "u32"), ("release", "u32"), ("release", "elem")]
@@ -362,6 +363,7 @@ def p_C03(ctx):
                 "is compared cell by cell; through view_mut every cell is overwritten and the whole root compared; "
                 "distinct by (root kind, shape, stack, request)")
     ctx.assumptions = ACC_ASSUME
+    addr_check(ctx)       # Layer B: W-bit range arithmetic of calculate_view_dimensions, both build flavours
     if ctx.quick:
         r = acc_tlc(ctx, "views", ["view"], [0, 11, 13, 31, 23, 32, 33], kinds=("owned", "slice_v", "slice_m"), depth=1)
         combos = [("dev", "u32"), ("release", "u32"), ("dev", "elem")]
@@ -866,6 +868,15 @@ def giant_check(ctx, keep):
     ctx.sample_from(sel, 1)
     for prof in ("dev", "release"):
         ctx.replay(sel, attr_giant, profile=prof, label="giant")
+
+
+
+def addr_check(ctx):
+    """Addr.tla: the offset / range arithmetic of the accessors, col() and view() in W-bit words, with overflow checks on
+    and off, equals the Layer A cell / window for every argument value, and every unchecked slice access is in bounds."""
+    for oc in (True, False):
+        cfg = cfg_text(constants={"W": 6 if ctx.quick else 7, "OC": oc, "MaxDim": 4 if ctx.quick else 5, "MaxSkip": 2}, invariants=["Refines"])
+        ctx.tlc_run("addr-oc%s" % ("on" if oc else "off"), "AddrMC", cfg, workers=8 if ctx.quick else 12, xmx="8g")
 
 
 
